@@ -565,7 +565,7 @@ func C08(tier string) int {
 			res.Violate("race|free-running-test-failed", "the free-running request test fails: "+tail(txt, 1500), M{"check": "C08", "part": "race", "log": rf})
 		}
 	}
-	res.Rule = "hand-written collision scenarios plus EVERY unordered pair of 21 request kinds (each inbox / outbox activity type with a default effect, forwarding, GET entry points; a kind also paired with itself; quick: every triple of 4 kinds that change the same note / collection, thorough: every triple of the 13 state-changing kinds), all aimed at the same local objects; per scenario: 2-3 real request goroutines on one Actor under a cooperative scheduler; every Database/Transport/callback call is a scheduling point, application locks are blocking resources; 2-thread scenarios: all interleavings (visited-state pruning); 3-thread: all with <= 2 (quick) / <= 3 (thorough) preemptions; oracle: no deadlock, every request returns, final collections (as multisets) equal those of some sequential order of the same requests, a duplicated id is in each inbox once / resolved once per inbox / forwarded once; two scenarios per multi-valued request kind naming the same two local values in opposite order; the per-entry form of the oracle is used (every entry equals that entry in some sequential order); plus sequential redelivery histories: every inbox scenario of the corpus and of the generated addressing family delivered 2-3 times on one application, the FIRST delivery under every choice of <= 1 (thorough: 2) failing seam calls: in the inbox once, side effects resolved at most once, no collection holds the id twice, forwarded at most once, and neither a redelivery nor a further activity of the same shape asks for a lock the failed first delivery returned with (it would never complete); distinct_nontrivial = distinct (scenario, final state) pairs"
+	res.Rule = "hand-written collision scenarios plus EVERY unordered pair of 22 request kinds (among them an Add naming six objects) (each inbox / outbox activity type with a default effect, forwarding, GET entry points; a kind also paired with itself; quick: every triple of 4 kinds that change the same note / collection, thorough: every triple of the 13 state-changing kinds), all aimed at the same local objects; per scenario: 2-3 real request goroutines on one Actor under a cooperative scheduler; every Database/Transport/callback call is a scheduling point, application locks are blocking resources; 2-thread scenarios: all interleavings (visited-state pruning); 3-thread: all with <= 2 (quick) / <= 3 (thorough) preemptions; oracle: no deadlock, every request returns, final collections (as multisets) equal those of some sequential order of the same requests, a duplicated id is in each inbox once / resolved once per inbox / forwarded once; two scenarios per multi-valued request kind naming the same two local values in opposite order; the per-entry form of the oracle is used (every entry equals that entry in some sequential order); plus sequential redelivery histories: every inbox scenario of the corpus and of the generated addressing family delivered 2-3 times on one application, the FIRST delivery under every choice of <= 1 (thorough: 2) failing seam calls: in the inbox once, side effects resolved at most once, no collection holds the id twice, forwarded at most once, and neither a redelivery nor a further activity of the same shape asks for a lock the failed first delivery returned with (it would never complete); distinct_nontrivial = distinct (scenario, final state) pairs"
 	res.Assumptions = []string{"application Lock/Unlock give mutual exclusion per id", "interleaving granularity = seam calls; unsynchronised accesses between them are looked for by the supplementary free-running -race pass only",
 		"library code is deterministic given the results it observes (enforced: replay divergence is a hard error)"}
 	return res.Finish()
